@@ -14,11 +14,12 @@ import (
 )
 
 type SolverCfg struct {
-	WorkDir  string
-	Timeout  time.Duration // per obligation
-	Jobs     int
-	AllAgree bool // thorough: run all solvers and compare
-	Keep     bool
+	quickOnly bool // stage 1 only (z3-new alone)
+	WorkDir   string
+	Timeout   time.Duration // per obligation
+	Jobs      int
+	AllAgree  bool // thorough: run all solvers and compare
+	Keep      bool
 }
 
 func (o *Obligation) script() string {
@@ -223,6 +224,34 @@ func solve(o *Obligation, cfg *SolverCfg, idx int) {
 	if o.done {
 		return
 	}
+	if !o.Cover && o.smtFull != "" {
+		// quick attempts first: sliced, then full (slicing can drop a needed
+		// hypothesis, and the full query is often immediate)
+		quickCfg := *cfg
+		quickCfg.Timeout = 3 * time.Second
+		quickCfg.quickOnly = true
+		sliced, logic := o.smt, o.logic
+		solve1(o, &quickCfg, idx)
+		if o.Status == "unsat" {
+			o.smtFull = ""
+			return
+		}
+		firstStatus, firstModel, firstSolver, firstOut, firstKeep := o.Status, o.Model, o.Solver, o.Output, o.smtKeep
+		o.smt, o.logic, o.Model = o.smtFull, "", nil
+		solve1(o, &quickCfg, idx)
+		if o.Status == "unsat" {
+			o.smtFull = ""
+			return
+		}
+		if firstStatus == "sat" && o.Status != "sat" {
+			o.Status, o.Model, o.Solver, o.Output, o.smtKeep = firstStatus, firstModel, firstSolver+"(sliced)", firstOut, firstKeep
+		}
+		if o.Status == "sat" {
+			o.smtFull = ""
+			return
+		}
+		o.smt, o.logic = sliced, logic
+	}
 	solve1(o, cfg, idx)
 	if !o.Cover && o.Status != "unsat" && o.smtFull != "" {
 		prevStatus, prevModel, prevSolver, prevOut, prevKeep := o.Status, o.Model, o.Solver, o.Output, o.smtKeep
@@ -281,7 +310,7 @@ func solve1(o *Obligation, cfg *SolverCfg, idx int) {
 	}
 	st, out, secs := runOne(ctx, solvers[0], f1, quick)
 	o.Seconds += secs
-	if want(st) && !cfg.AllAgree {
+	if (want(st) && !cfg.AllAgree) || cfg.quickOnly {
 		o.Status, o.Solver, o.Output = st, solvers[0].name, out
 		if st == "sat" {
 			o.Model = parseModel(out)
